@@ -1294,9 +1294,13 @@ class FnEmitter:
             out.append('}')
             return out
         if op == 'ret':
+            pre = []
+            if self.f.name in em.roots:
+                # the string bound is asserted, not assumed: a truncated string must never have taken part in a comparison
+                pre = ['VRT_CHECK(__vstd_trunc_used == 0, "string bound large enough: no truncated string was compared");']
             if d['v'] is None:
-                return ['return;']
-            return ['return %s;' % self.cval(d['rt'], d['v'])]
+                return pre + ['return;']
+            return pre + ['return %s;' % self.cval(d['rt'], d['v'])]
         if op == 'unreachable':
             return ['__vrt_unreachable();']
         if op == 'extractvalue':
@@ -1563,7 +1567,7 @@ def main():
     em.reach = reach
     em.build_rtti()
     out = []
-    out.append('#include "vrt.h"\nvoid __vrt_static_init(void);\n')
+    out.append('#include "vrt.h"\nvoid __vrt_static_init(void);\nextern uint32_t __vstd_trunc_used;\n')
     # function bodies first (into a buffer) so anon struct types get discovered
     bodies = []
     protos = []
